@@ -40,6 +40,18 @@ static inline void iora_bv_assign_range(iora_bv *v, const uint8_t *first, const 
  *              the nondeterministic answers for non-witness values could exceed that, those impossible runs are cut (assume). */
 uint16_t GV;          /* arbitrary witness pointer target */
 size_t G_msg_size;    /* bound by the contract to the size of the message whose name is decoded */
+#ifdef IORA_NATIVE
+/* differential run (tools/diffrun.py): a REAL set of 16-bit values (bitmap, allocated on first use); ghost checks are proof
+ * obligations, not behaviour, and are absent here */
+typedef struct { size_t count; bool has_gv; unsigned gv_followed; bool q_valid; uint16_t q_val; bool q_res; uint8_t *bits; } iora_u16set;
+#define iora_u16set_DEFAULT ((iora_u16set){0, false, 0, false, 0, false, NULL})
+static inline bool iora_u16set_contains(iora_u16set *s, uint16_t x) { return s->bits != NULL && ((s->bits[x >> 3] >> (x & 7)) & 1); }
+static inline void iora_u16set_insert(iora_u16set *s, uint16_t x)
+{
+  if (!s->bits) s->bits = (uint8_t *)calloc(8192, 1);
+  if (!((s->bits[x >> 3] >> (x & 7)) & 1)) { s->bits[x >> 3] |= (uint8_t)(1u << (x & 7)); s->count++; }
+}
+#else
 typedef struct { size_t count; bool has_gv; unsigned gv_followed; bool q_valid; uint16_t q_val; bool q_res; } iora_u16set;
 #define iora_u16set_DEFAULT ((iora_u16set){0, false, 0, false, 0, false})
 static inline bool iora_u16set_contains(iora_u16set *s, uint16_t x)
@@ -59,5 +71,7 @@ static inline void iora_u16set_insert(iora_u16set *s, uint16_t x)
   if (is_new) { s->count++; IORA_ASSUME(s->count <= 16384); }
   s->q_valid = false;
 }
+
+#endif
 
 #endif
